@@ -5,11 +5,13 @@ import Lc3V.Driver.Word
 import Lc3V.Driver.Instr
 import Lc3V.Driver.Sim
 import Lc3V.Driver.Timer
+import Lc3V.Driver.Source
 open Lc3V Lc3V.Driver
 
 structure DState where
   sim : Option SimCtx := none
   tim : Option Timer := none
+  src : Option SourceInfo := none
 
 def step (st : DState) (line : String) : DState × String :=
   let l := line.trimAscii.toString
@@ -17,6 +19,7 @@ def step (st : DState) (line : String) : DState × String :=
   | "case" :: _ => (st, l)
   | "sim" :: args => let (s', out) := cmdSim st.sim args; ({ st with sim := s' }, out)
   | "tim" :: args => let (t', out) := cmdTim st.tim args; ({ st with tim := t' }, out)
+  | "src" :: args => let (t', out) := cmdSrc st.src args; ({ st with src := t' }, out)
   | "off" :: args  => (st, cmdOff false args)
   | "offt" :: args => (st, cmdOff true args)
   | "wop" :: args => (st, cmdWop args)
